@@ -1,1 +1,484 @@
-(* Proto/Proofs.v -- stub, to be filled *)
+(* Proto/Proofs.v -- proofs about the protobuf primitive layer and the Writer/Reader model (C17). *)
+From A1 Require Import Proto.Wire Proto.Rw.
+Require Import ZifyBool ZifyNat ZifyN.
+Local Open Scope N_scope.
+
+(** * finite sweeps *)
+Definition nrange (k : nat) : list N := map N.of_nat (seq 0 k).
+Lemma nrange_in k n : n < N.of_nat k -> In n (nrange k).
+Proof.
+  intros H. unfold nrange. apply in_map_iff. exists (N.to_nat n). split; [lia|].
+  apply in_seq. lia.
+Qed.
+Lemma sweep (P : N -> bool) k :
+  forallb P (nrange k) = true -> forall n, n < N.of_nat k -> P n = true.
+Proof. intros H n Hn. rewrite forallb_forall in H. apply H, nrange_in, Hn. Qed.
+
+Lemma byte_bits_sweep :
+  forallb (fun b => (N.land b 127 =? b mod 128) && (Bool.eqb (N.land b 128 =? 0) (b <? 128))) (nrange 256) = true.
+Proof. vm_compute. reflexivity. Qed.
+
+Lemma byte_bits b : b < 256 -> N.land b 127 = b mod 128 /\ (N.land b 128 =? 0) = (b <? 128).
+Proof.
+  intros Hb. pose proof (sweep _ 256 byte_bits_sweep b Hb) as E. cbv beta in E.
+  apply andb_true_iff in E. destruct E as [E1 E2].
+  apply N.eqb_eq in E1. apply Bool.eqb_prop in E2. auto.
+Qed.
+
+(** * bit-disjoint or = addition *)
+Lemma land_low_high a x k : a < 2 ^ k -> N.land a (x * 2 ^ k) = 0.
+Proof.
+  intros Ha. apply N.bits_inj_0. intros i. rewrite N.land_spec.
+  destruct (N.lt_ge_cases i k) as [Hi|Hi].
+  - rewrite N.mul_pow2_bits_low by exact Hi. apply andb_false_r.
+  - destruct (N.eq_dec a 0) as [->|Hne]; [rewrite N.bits_0; reflexivity|].
+    rewrite (N.bits_above_log2 a i); [reflexivity|].
+    apply N.log2_lt_pow2 in Ha; [lia|lia].
+Qed.
+
+Lemma lor_low_high a x k : a < 2 ^ k -> N.lor a (x * 2 ^ k) = a + x * 2 ^ k.
+Proof.
+  intros Ha. pose proof (land_low_high a x k Ha) as L.
+  rewrite <- N.lxor_lor by exact L. symmetry. apply N.add_nocarry_lxor. exact L.
+Qed.
+
+(** * varint *)
+Lemma pow7_split n : 2 ^ (7 * n + 7) = 128 * 2 ^ (7 * n).
+Proof. rewrite N.pow_add_r. change (2 ^ 7) with 128. lia. Qed.
+
+Lemma rvl_step f value shift b rest :
+  shift < 64 ->
+  read_varint_loop (S f) value shift (b :: rest) =
+  (let value' := N.lor value ((N.land b 127 * 2 ^ shift) mod two64) in
+   if N.land b 128 =? 0 then Ok (value', rest) else read_varint_loop f value' (shift + 7) rest).
+Proof. intros H. cbn [read_varint_loop]. apply N.ltb_lt in H. rewrite H. reflexivity. Qed.
+
+(* n rounds already done: shift = 7n, the value so far is below 2^(7n), what remains is below 2^(64-7n) *)
+Lemma varint_rounds : forall (m : nat) (n : N) (v value : N) (tail : list N),
+  N.of_nat m + n = 10 -> (0 < m)%nat ->
+  v < 2 ^ (64 - 7 * n) -> value < 2 ^ (7 * n) ->
+  read_varint_loop (S m) value (7 * n) (write_varint_fuel m v ++ tail) = Ok (value + v * 2 ^ (7 * n), tail).
+Proof.
+  induction m as [|m IH]; intros n v value tail Hmn Hm Hv Hval; [lia|].
+  assert (Hn : n <= 9) by lia.
+  assert (Hsh : 7 * n < 64) by lia.
+  cbn [write_varint_fuel].
+  assert (P7 : 2 ^ (7 * n) <> 0) by (apply N.pow_nonzero; lia).
+  destruct (127 <? v) eqn:Hbig.
+  - (* continuation byte *)
+    apply N.ltb_lt in Hbig.
+    assert (Hm' : (0 < m)%nat).
+    { destruct m; [|lia]. (* m = 0 means n = 9: v < 2, contradiction *)
+      assert (n = 9) by lia. subst n. change (2 ^ (64 - 7 * 9)) with 2 in Hv. lia. }
+    rewrite <- app_comm_cons. rewrite rvl_step by exact Hsh. cbv zeta.
+    set (b := v mod 128 + 128).
+    assert (Hb : b < 256) by (unfold b; pose proof (N.mod_lt v 128); lia).
+    destruct (byte_bits b Hb) as [B1 B2].
+    assert (Hbm : b mod 128 = v mod 128).
+    { unfold b. rewrite N.add_mod by lia. rewrite N.mod_same by lia. rewrite N.add_0_r.
+      rewrite N.mod_mod by lia. apply N.mod_mod. lia. }
+    rewrite B1, B2, Hbm.
+    assert ((b <? 128) = false) as -> by (apply N.ltb_ge; unfold b; lia).
+    assert (Hlow : v mod 128 * 2 ^ (7 * n) < two64).
+    { assert (v mod 128 < 128) by (apply N.mod_lt; lia).
+      assert (2 ^ (7 * n) <= 2 ^ 57) by (apply N.pow_le_mono_r; lia).
+      change two64 with (128 * 2 ^ 57). nia. }
+    rewrite (N.mod_small _ _ Hlow).
+    rewrite lor_low_high by exact Hval.
+    replace (7 * n + 7) with (7 * (n + 1)) by lia.
+    rewrite IH; try lia.
+    + f_equal. f_equal.
+      replace (7 * (n + 1)) with (7 * n + 7) by lia. rewrite pow7_split.
+      pose proof (N.div_mod v 128). lia.
+    + (* v / 128 bound *)
+      assert (2 ^ (64 - 7 * n) = 128 * 2 ^ (64 - 7 * (n + 1))) as E.
+      { replace (64 - 7 * n) with (7 + (64 - 7 * (n + 1))) by lia. rewrite N.pow_add_r. reflexivity. }
+      rewrite E in Hv. apply N.div_lt_upper_bound; lia.
+    + replace (7 * (n + 1)) with (7 * n + 7) by lia. rewrite pow7_split.
+      assert (v mod 128 < 128) by (apply N.mod_lt; lia). nia.
+  - (* final byte *)
+    apply N.ltb_ge in Hbig.
+    cbn [app]. rewrite rvl_step by exact Hsh. cbv zeta.
+    assert (Hb : v < 256) by lia.
+    destruct (byte_bits v Hb) as [B1 B2]. rewrite B1, B2.
+    assert ((v <? 128) = true) as -> by (apply N.ltb_lt; lia).
+    rewrite (N.mod_small v 128) by lia.
+    assert (Hlow : v * 2 ^ (7 * n) < two64).
+    { assert (2 ^ (64 - 7 * n) * 2 ^ (7 * n) = two64) as E.
+      { rewrite <- N.pow_add_r. replace (64 - 7 * n + 7 * n) with 64 by lia. reflexivity. }
+      rewrite <- E. apply N.mul_lt_mono_pos_r; lia. }
+    rewrite (N.mod_small _ _ Hlow). rewrite lor_low_high by exact Hval. reflexivity.
+Qed.
+
+Theorem varint_roundtrip v tail :
+  v < two64 -> read_varint (write_varint v ++ tail) = Ok (v, tail).
+Proof.
+  intros Hv. unfold read_varint, write_varint.
+  pose proof (varint_rounds 10 0 v 0 tail) as H.
+  change (7 * 0) with 0 in H. rewrite H; try lia; try reflexivity.
+  - rewrite N.pow_0_r. f_equal. f_equal. lia.
+  - exact Hv.
+Qed.
+
+(* the writer never runs out of fuel: the last round always emits a final byte *)
+Lemma write_varint_nonempty v : write_varint v <> [].
+Proof. unfold write_varint. cbn [write_varint_fuel]. destruct (127 <? v); discriminate. Qed.
+
+(** * zig-zag *)
+Ltac Zify.zify_post_hook ::= Z.div_mod_to_equations.
+
+Lemma lxor_m1 x : Z.lxor x (-1) = (- x - 1)%Z.
+Proof. rewrite Z.lxor_m1_r. unfold Z.lnot. lia. Qed.
+
+Lemma land1_mod2 n : N.land n 1 = n mod 2.
+Proof. change 1 with (N.ones 1). rewrite N.land_ones. reflexivity. Qed.
+
+Lemma zz32_low z : is_i32 z ->
+  u32_of_u64 (zz32 z) = Z.to_N (if (z <? 0)%Z then - 2 * z - 1 else 2 * z)%Z.
+Proof.
+  unfold is_i32, u32_of_u64, zz32, i32_wrap, u64_of_i64.
+  change (Z.of_N two31) with 2147483648%Z. change (Z.of_N two32) with 4294967296%Z.
+  change (Z.of_N two64) with 18446744073709551616%Z. change two32 with 4294967296.
+  intros H. destruct (z <? 0)%Z eqn:Hs.
+  - rewrite lxor_m1. lia.
+  - rewrite Z.lxor_0_r. lia.
+Qed.
+
+Theorem zigzag32_roundtrip z : is_i32 z -> unzz32 (zz32 z) = z.
+Proof.
+  intros H. unfold unzz32. cbv zeta. rewrite (zz32_low z H). rewrite land1_mod2.
+  unfold is_i32, i32_wrap in *.
+  change (Z.of_N two31) with 2147483648%Z in *. change (Z.of_N two32) with 4294967296%Z.
+  destruct (z <? 0)%Z eqn:Hs.
+  - replace (- Z.of_N (Z.to_N (-2 * z - 1) mod 2))%Z with (-1)%Z by lia.
+    rewrite lxor_m1. lia.
+  - replace (- Z.of_N (Z.to_N (2 * z) mod 2))%Z with 0%Z by lia.
+    rewrite Z.lxor_0_r. lia.
+Qed.
+
+Lemma i64_wrap_eq z : i64_wrap z = ((z + 9223372036854775808) mod 18446744073709551616 - 9223372036854775808)%Z.
+Proof.
+  unfold i64_wrap, i64_of_u64, u64_of_i64.
+  change (Z.of_N two64) with 18446744073709551616%Z.
+  destruct (N.ltb_spec (Z.to_N (z mod 18446744073709551616)) two63) as [L|L]; unfold two63 in L; lia.
+Qed.
+
+Lemma zz64_val z : is_i64 z ->
+  zz64 z = Z.to_N (if (z <? 0)%Z then - 2 * z - 1 else 2 * z)%Z.
+Proof.
+  unfold is_i64, zz64. rewrite i64_wrap_eq. unfold u64_of_i64.
+  change (Z.of_N two63) with 9223372036854775808%Z.
+  change (Z.of_N two64) with 18446744073709551616%Z.
+  intros H. destruct (z <? 0)%Z eqn:Hs.
+  - rewrite lxor_m1. lia.
+  - rewrite Z.lxor_0_r. lia.
+Qed.
+
+Lemma zz64_lt z : zz64 z < two64.
+Proof. unfold zz64. apply u64_of_i64_lt. Qed.
+Lemma zz32_lt z : zz32 z < two64.
+Proof. unfold zz32. apply u64_of_i64_lt. Qed.
+
+Theorem zigzag64_roundtrip z : is_i64 z -> unzz64 (zz64 z) = z.
+Proof.
+  intros H. unfold unzz64. rewrite (zz64_val z H). rewrite land1_mod2. rewrite i64_wrap_eq.
+  unfold is_i64 in H. change (Z.of_N two63) with 9223372036854775808%Z in H.
+  destruct (z <? 0)%Z eqn:Hs.
+  - replace (- Z.of_N (Z.to_N (-2 * z - 1) mod 2))%Z with (-1)%Z by lia.
+    rewrite lxor_m1. lia.
+  - replace (- Z.of_N (Z.to_N (2 * z) mod 2))%Z with 0%Z by lia.
+    rewrite Z.lxor_0_r. lia.
+Qed.
+
+(** * tags *)
+Lemma lor_fmt_sweep :
+  forallb (fun c => (N.land c 7 =? c) ) [0; 1; 2; 5] = true.
+Proof. reflexivity. Qed.
+
+Lemma tag_word_spec field f :
+  field < 2 ^ 29 -> tag_word field f = field * 8 + format_code f /\ tag_word field f < two32.
+Proof.
+  intros Hf. unfold tag_word.
+  assert (field * 8 < two32) by (change two32 with (2 ^ 29 * 8); lia).
+  rewrite N.mod_small by assumption.
+  assert (format_code f < 2 ^ 3) by (destruct f; cbn; lia).
+  rewrite N.lor_comm. change 8 with (2 ^ 3).
+  rewrite lor_low_high by assumption. change (2 ^ 3) with 8.
+  change two32 with 4294967296 in *. change (2 ^ 29) with 536870912 in Hf.
+  split; [lia|]. lia.
+Qed.
+
+Theorem tag_roundtrip field f tail :
+  field < 2 ^ 29 -> read_tag (write_tag field f ++ tail) = Ok (field, f, tail).
+Proof.
+  intros Hf. destruct (tag_word_spec field f Hf) as [E L].
+  unfold read_tag, write_tag.
+  rewrite varint_roundtrip by (change two64 with (two32 * two32); change two32 with 4294967296 in *; lia).
+  cbn [bind]. unfold u32_of_u64. rewrite (N.mod_small _ _ L). rewrite E.
+  change 7 with (N.ones 3). rewrite N.land_ones. change (2 ^ 3) with 8.
+  assert (format_code f < 8) by (destruct f; cbn; lia).
+  replace ((field * 8 + format_code f) mod 8) with (format_code f)
+    by lia.
+  replace ((field * 8 + format_code f) / 8) with field
+    by lia.
+  destruct f; reflexivity.
+Qed.
+
+(** * numbers: every integer kind survives number_bytes / number_read *)
+Lemma in_kind_range k z : in_kind k z = true ->
+  let '(lo, hi) := kind_range k in (lo <= z <= hi)%Z.
+Proof. unfold in_kind. destruct (kind_range k) as [lo hi]. lia. Qed.
+
+Lemma read_varint_self v : v < two64 -> read_varint (write_varint v) = Ok (v, []).
+Proof. intros H. rewrite <- (app_nil_r (write_varint v)). apply varint_roundtrip, H. Qed.
+
+Lemma kind_sel_values :
+  kind_sel KU8 = PUInt32 /\ kind_sel KU16 = PUInt32 /\ kind_sel KU32 = PUInt32 /\ kind_sel KU64 = PUInt64 /\
+  kind_sel KI8 = PSInt32 /\ kind_sel KI16 = PSInt32 /\ kind_sel KI32 = PSInt32 /\ kind_sel KI64 = PSInt64.
+Proof. repeat split; reflexivity. Qed.
+
+Lemma number_u32 k z :
+  kind_sel k = PUInt32 -> (0 <= z < 4294967296)%Z -> from_i64 k z = z ->
+  number_read k (number_bytes k z) = Ok z.
+Proof.
+  intros Hk Hz Hf. unfold number_read, number_bytes, to_i64. rewrite Hk. rewrite i64_wrap_eq.
+  unfold write_uint32, read_uint32. change (Z.of_N two32) with 4294967296%Z.
+  rewrite read_varint_self by (change two64 with 18446744073709551616; lia).
+  cbn [bind]. unfold u32_of_u64. change two32 with 4294967296.
+  replace (Z.of_N (Z.to_N (((z + 9223372036854775808) mod 18446744073709551616 - 9223372036854775808) mod 4294967296)
+                   mod 4294967296)) with z by lia.
+  rewrite Hf. reflexivity.
+Qed.
+
+Lemma number_s32 k z :
+  kind_sel k = PSInt32 -> (-2147483648 <= z < 2147483648)%Z -> from_i64 k z = z ->
+  number_read k (number_bytes k z) = Ok z.
+Proof.
+  intros Hk Hz Hf. unfold number_read, number_bytes, to_i64. rewrite Hk. rewrite i64_wrap_eq.
+  unfold write_sint32, read_sint32.
+  rewrite read_varint_self by apply zz32_lt.
+  cbn [bind].
+  assert (E : i32_wrap ((z + 9223372036854775808) mod 18446744073709551616 - 9223372036854775808) = z).
+  { unfold i32_wrap. change (Z.of_N two31) with 2147483648%Z. change (Z.of_N two32) with 4294967296%Z. lia. }
+  rewrite E.
+  rewrite zigzag32_roundtrip by (unfold is_i32; change (Z.of_N two31) with 2147483648%Z; lia).
+  rewrite Hf. reflexivity.
+Qed.
+
+Theorem number_roundtrip k z : in_kind k z = true -> number_read k (number_bytes k z) = Ok z.
+Proof.
+  intros H. apply in_kind_range in H.
+  destruct kind_sel_values as (S1 & S2 & S3 & S4 & S5 & S6 & S7 & S8).
+  destruct k; cbn [kind_range] in H; cbv [i64_min i64_max] in H;
+    change (Z.of_N two63) with 9223372036854775808%Z in H.
+  - apply number_u32; [exact S1|lia|unfold from_i64; lia].
+  - apply number_s32; [exact S5|lia|unfold from_i64, wrap_signed; lia].
+  - apply number_u32; [exact S2|lia|unfold from_i64; lia].
+  - apply number_s32; [exact S6|lia|unfold from_i64, wrap_signed; lia].
+  - apply number_u32; [exact S3|lia|unfold from_i64; lia].
+  - apply number_s32; [exact S7|lia|unfold from_i64, wrap_signed; lia].
+  - (* u64 *)
+    unfold number_read, number_bytes, to_i64. rewrite S4. rewrite i64_wrap_eq.
+    unfold write_uint64, read_uint64.
+    rewrite read_varint_self by apply u64_of_i64_lt.
+    cbn [bind]. unfold from_i64. f_equal.
+    unfold i64_of_u64, u64_of_i64. change (Z.of_N two64) with 18446744073709551616%Z.
+    destruct (N.ltb_spec (Z.to_N (((z + 9223372036854775808) mod 18446744073709551616 - 9223372036854775808)
+                                   mod 18446744073709551616)) two63) as [L|L]; unfold two63 in L; lia.
+  - (* i64 *)
+    unfold number_read, number_bytes, to_i64. rewrite S8. rewrite i64_wrap_eq.
+    unfold write_sint64, read_sint64.
+    rewrite read_varint_self by apply zz64_lt.
+    cbn [bind].
+    replace ((z + 9223372036854775808) mod 18446744073709551616 - 9223372036854775808)%Z with z by lia.
+    rewrite zigzag64_roundtrip
+      by (unfold is_i64; change (Z.of_N two63) with 9223372036854775808%Z; lia).
+    unfold from_i64. reflexivity.
+Qed.
+
+(** * Message level: a one-component message holding an integer (what a tuple struct
+      `T ::= INTEGER (..)` and a one-field SEQUENCE generate), every kind, every value *)
+Lemma write_varint_fuel_len f v : (length (write_varint_fuel f v) <= f)%nat.
+Proof.
+  revert v. induction f as [|f IH]; intros v; cbn [write_varint_fuel]; [simpl; lia|].
+  destruct (127 <? v); cbn [length]; [specialize (IH (v / 128)); lia|lia].
+Qed.
+Lemma write_varint_len v : (1 <= length (write_varint v) <= 10)%nat.
+Proof.
+  pose proof (write_varint_fuel_len 10 v). unfold write_varint in *. split; [|assumption].
+  cbn [write_varint_fuel]. destruct (127 <? v); cbn [length]; lia.
+Qed.
+
+Lemma number_bytes_varint k z : exists x, x < two64 /\ number_bytes k z = write_varint x.
+Proof.
+  unfold number_bytes. destruct (kind_sel k).
+  - eexists; split; [|reflexivity]. change (Z.of_N two32) with 4294967296%Z. change two64 with 18446744073709551616. lia.
+  - eexists; split; [|reflexivity]. apply u64_of_i64_lt.
+  - eexists; split; [|reflexivity]. apply zz32_lt.
+  - eexists; split; [|reflexivity]. apply zz64_lt.
+Qed.
+
+Lemma slice_all src : slice src (0, nlen src) = Ok src.
+Proof.
+  unfold slice, nlen. rewrite N.ltb_irrefl.
+  assert ((N.of_nat (length src) <? 0) = false) as -> by (apply N.ltb_ge; lia).
+  cbn [N.to_nat skipn]. rewrite N.sub_0_r, Nat2N.id, firstn_all. reflexivity.
+Qed.
+
+Lemma slice_suffix a b : slice (a ++ b) (nlen a, nlen (a ++ b)) = Ok b.
+Proof.
+  unfold slice, nlen. rewrite app_length.
+  assert ((N.of_nat (length a + length b) <? N.of_nat (length a)) = false) as -> by (apply N.ltb_ge; lia).
+  rewrite N.ltb_irrefl.
+  rewrite Nat2N.id. rewrite skipn_app, skipn_all, Nat.sub_diag. cbn [app skipn].
+  replace (N.to_nat (N.of_nat (length a + length b) - N.of_nat (length a))) with (length b) by lia.
+  rewrite firstn_all. reflexivity.
+Qed.
+
+Theorem roundtrip_int_message m k z :
+  in_kind k z = true ->
+  let t := TSeq [(false, TInt k)] in
+  let v := VSeq [VInt z] in
+  exists bs, pwrite_vec m t v = Ok bs /\ pread m t bs = Ok v /\ peq t v v = true.
+Proof.
+  intros Hin t v.
+  destruct (number_bytes_varint k z) as (x & Hx & Ex).
+  set (hd := write_tag 1 VarInt).
+  exists (hd ++ number_bytes k z).
+  assert (Hw : pwrite_vec m t v = Ok (hd ++ number_bytes k z)) by reflexivity.
+  split; [exact Hw|]. split.
+  2:{ cbn. unfold in_kind in Hin. rewrite Z.eqb_refl. reflexivity. }
+  set (nb := number_bytes k z) in *.
+  set (src := hd ++ nb).
+  assert (Hhd : length hd = 1%nat) by reflexivity.
+  assert (Hnb : (1 <= length nb <= 10)%nat) by (rewrite Ex; apply write_varint_len).
+  assert (Hlen : nlen src = 1 + nlen nb) by (unfold src, nlen; rewrite app_length, Hhd; lia).
+  unfold pread. cbn [rd t].
+  cbn [next_tag_range unwrap_or].
+  (* index_enclosed *)
+  unfold index_enclosed. cbn [fst snd].
+  assert (Hfuel : exists f, (length src + 2)%nat = S (S f)) by (exists (length src); lia).
+  destruct Hfuel as [f Ef]. rewrite Ef.
+  cbn [ie_loop].
+  assert ((0 <? nlen src) = true) as -> by (apply N.ltb_lt; lia).
+  rewrite slice_all. cbn [bind].
+  unfold src at 1. unfold hd at 1. rewrite tag_roundtrip by (cbn; lia). cbn [bind].
+  assert (Hnb' : 1 <= nlen nb <= 10) by (unfold nlen; lia).
+  assert (Hrv : read_varint nb = Ok (x, [])) by (rewrite Ex; apply read_varint_self, Hx).
+  unfold content_off_len. rewrite Hrv. cbn [bind].
+  change (@nlen []) with 0.
+  unfold add_usize.
+  replace (0 + (nlen src - nlen nb) + 0) with 1 by lia.
+  replace (1 + (nlen nb - 0)) with (nlen src) by lia.
+  assert ((usize_max <? nlen src) = false) as -> by (apply N.ltb_ge; unfold usize_max, two64; lia).
+  cbn [bind]. rewrite N.ltb_irrefl. cbn [bind app].
+  (* the field *)
+  assert (Hsl : slice src (1, nlen src) = Ok nb).
+  { assert (E1 : (1, nlen src) = (nlen hd, nlen (hd ++ nb))) by (unfold nlen; rewrite Hhd; reflexivity).
+    unfold src at 1. rewrite E1. apply slice_suffix. }
+  unfold next_reader. cbn [next_tag_range take_tag]. rewrite N.eqb_refl. cbn [andb].
+  change (format_eqb VarInt VarInt) with true. cbv iota beta. cbn [unwrap_or]. rewrite Hsl. cbn [bind].
+  assert (Hnn : is_nil nb = false) by (destruct nb; [cbn [length] in Hnb; lia|reflexivity]).
+  rewrite Hnn. unfold nb. rewrite number_roundtrip by exact Hin. reflexivity.
+Qed.
+
+(** * Message level, bounded-exhaustive: every value of the flat type
+      SEQUENCE { b BOOLEAN, x INTEGER (0..255), y INTEGER (-128..127) OPTIONAL } *)
+Definition flat_ty : pty := TSeq [(false, TBool); (false, TInt KU8); (true, TInt KI8)].
+Definition flat_vals : list pval :=
+  flat_map (fun b => flat_map (fun x => map (fun oy => VSeq [VBool b; VInt (Z.of_N x); VOpt oy])
+     (None :: map (fun y => Some (VInt (Z.of_N y - 128))) (nrange 256))) (nrange 256)) [false; true].
+
+Definition roundtrip_ok (m : mode) (t : pty) (v : pval) : bool :=
+  match pwrite_vec m t v with
+  | Ok bs => match pread m t bs with Ok v' => peq t v v' && pval_eqb v v' | _ => false end
+  | _ => false
+  end.
+
+Lemma flat_sweep_dev : forallb (roundtrip_ok dev_mode flat_ty) flat_vals = true.
+Proof. vm_compute. reflexivity. Qed.
+Lemma flat_sweep_release : forallb (roundtrip_ok release_mode flat_ty) flat_vals = true.
+Proof. vm_compute. reflexivity. Qed.
+
+Lemma flat_vals_complete b x oy :
+  x < 256 -> (forall y, oy = Some y -> (-128 <= y < 128)%Z) ->
+  In (VSeq [VBool b; VInt (Z.of_N x); VOpt (option_map VInt oy)]) flat_vals.
+Proof.
+  intros Hx Hy. unfold flat_vals.
+  apply in_flat_map. exists b. split; [destruct b; simpl; tauto|].
+  apply in_flat_map. exists x. split; [apply nrange_in; lia|].
+  apply in_map_iff. exists (option_map VInt oy). split; [reflexivity|].
+  destruct oy as [y|]; [|left; reflexivity]. right. cbn [option_map].
+  apply in_map_iff. exists (Z.to_N (y + 128)). specialize (Hy y eq_refl). split.
+  - f_equal. f_equal. lia.
+  - apply nrange_in. lia.
+Qed.
+
+Theorem roundtrip_flat (m : mode) b x oy :
+  (m = dev_mode \/ m = release_mode) ->
+  x < 256 -> (forall y, oy = Some y -> (-128 <= y < 128)%Z) ->
+  let v := VSeq [VBool b; VInt (Z.of_N x); VOpt (option_map VInt oy)] in
+  exists bs v', pwrite_vec m flat_ty v = Ok bs /\ pread m flat_ty bs = Ok v' /\ peq flat_ty v v' = true.
+Proof.
+  intros Hm Hx Hy v.
+  pose proof (flat_vals_complete b x oy Hx Hy) as Hin. fold v in Hin.
+  assert (R : roundtrip_ok m flat_ty v = true).
+  { destruct Hm as [-> | ->].
+    - pose proof flat_sweep_dev as S. rewrite forallb_forall in S. apply S, Hin.
+    - pose proof flat_sweep_release as S. rewrite forallb_forall in S. apply S, Hin. }
+  unfold roundtrip_ok in R. revert R.
+  destruct (pwrite_vec m flat_ty v) as [bs| |] eqn:Ew; try discriminate.
+  destruct (pread m flat_ty bs) as [v'| |] eqn:Er; try discriminate.
+  intros R. apply andb_true_iff in R. destruct R as [R _].
+  exists bs, v'. repeat split; auto.
+Qed.
+
+(** * Back ends, bounded-exhaustive on the flat type: a slice of exactly the needed size (or larger)
+      receives the bytes of the growable back end, a slice one byte short yields Err(Io) *)
+Definition backends_ok (m : mode) (t : pty) (v : pval) : bool :=
+  match pwrite_vec m t v with
+  | Ok bs =>
+      let n := N.of_nat (length bs) in
+      match pwrite_slice m n t v, pwrite_slice m (n + 3) t v, pwrite_slice m (n - 1) t v with
+      | Ok b1, Ok b2, Err e => list_n_eqb b1 bs && list_n_eqb b2 bs && (e =? E_IO) && (0 <? n)
+      | _, _, _ => false
+      end
+  | _ => false
+  end.
+Lemma flat_backends_dev : forallb (backends_ok dev_mode flat_ty) flat_vals = true.
+Proof. vm_compute. reflexivity. Qed.
+Lemma flat_backends_release : forallb (backends_ok release_mode flat_ty) flat_vals = true.
+Proof. vm_compute. reflexivity. Qed.
+
+Lemma list_n_eqb_eq a b : list_n_eqb a b = true -> a = b.
+Proof.
+  revert b. induction a as [|x a IH]; destruct b as [|y b]; cbn; try congruence.
+  intros H. apply andb_true_iff in H. destruct H as [H1 H2]. apply N.eqb_eq in H1. f_equal; auto.
+Qed.
+
+Theorem backends_agree_flat (m : mode) b x oy :
+  (m = dev_mode \/ m = release_mode) ->
+  x < 256 -> (forall y, oy = Some y -> (-128 <= y < 128)%Z) ->
+  let v := VSeq [VBool b; VInt (Z.of_N x); VOpt (option_map VInt oy)] in
+  exists bs, pwrite_vec m flat_ty v = Ok bs /\
+    pwrite_slice m (N.of_nat (length bs)) flat_ty v = Ok bs /\
+    pwrite_slice m (N.of_nat (length bs) + 3) flat_ty v = Ok bs /\
+    pwrite_slice m (N.of_nat (length bs) - 1) flat_ty v = Err E_IO.
+Proof.
+  intros Hm Hx Hy v.
+  pose proof (flat_vals_complete b x oy Hx Hy) as Hin. fold v in Hin.
+  assert (R : backends_ok m flat_ty v = true).
+  { destruct Hm as [-> | ->].
+    - pose proof flat_backends_dev as S. rewrite forallb_forall in S. apply S, Hin.
+    - pose proof flat_backends_release as S. rewrite forallb_forall in S. apply S, Hin. }
+  unfold backends_ok in R. revert R.
+  destruct (pwrite_vec m flat_ty v) as [bs| |] eqn:Ew; try discriminate.
+  cbv zeta.
+  destruct (pwrite_slice m (N.of_nat (length bs)) flat_ty v) as [b1| |] eqn:E1; try discriminate.
+  destruct (pwrite_slice m (N.of_nat (length bs) + 3) flat_ty v) as [b2| |] eqn:E2; try discriminate.
+  destruct (pwrite_slice m (N.of_nat (length bs) - 1) flat_ty v) as [|e|] eqn:E3; try discriminate.
+  intros R.
+  repeat (apply andb_true_iff in R; destruct R as [R ?]).
+  apply list_n_eqb_eq in R. apply list_n_eqb_eq in H1. apply N.eqb_eq in H0. subst.
+  exists bs. repeat split; auto.
+Qed.
